@@ -39,6 +39,36 @@ def snap(o, depth=0):
     return ["obj", type(o).__name__, sorted(d.items())]
 
 
+def scribble(o, depth=0):
+    """what a caller may do to a result it was handed: edit it in place.  Called on the raw return values
+    AFTER the canonical result and the argument snapshots were taken; a library that handed back its own
+    internal / default / memoised object will then show the edit in a later call"""
+    if depth > 2:
+        return
+    if isinstance(o, dict):
+        for v in list(o.values()):
+            scribble(v, depth + 1)
+        ks = list(o)
+        if ks and isinstance(ks[0], tuple) and all(isinstance(x, int) for x in ks[0]):
+            o[tuple(x + 1 for x in ks[0])] = o[ks[0]]        # a plausible extra key of the same shape
+        elif ks:
+            del o[ks[0]]
+        else:
+            o[(0, 0)] = set([(0, 0)])
+    elif isinstance(o, list):
+        for v in o[:3]:
+            scribble(v, depth + 1)
+        if o:
+            o.pop()
+        else:
+            o.append((0, 0))
+    elif isinstance(o, set):
+        if o:
+            o.pop()
+        else:
+            o.add((0, 0))
+
+
 def gen_problem(seed, vary=None):
     """a place-and-route problem drawn from `seed`; `vary` = k gives a TWIN of it that differs in exactly
     one aspect (dead links, a dead chip, chip resource exceptions, net weights, one constraint, one
@@ -148,7 +178,7 @@ def do_call(spec):
     from rig.routing_table import (routing_tree_to_tables, minimise_tables, MinimisationFailedError,
                                    MultisourceRouteError)
     from rig.routing_table import ordered_covering, remove_default_routes
-    args, result, before = [], None, []
+    args, result, before, raws = [], None, [], []
 
     def staged(upto):
         m, vr, nets, cons = gen_problem(seed, vary)
@@ -191,12 +221,14 @@ def do_call(spec):
                 p = {"sequential": sequential, "hilbert": hilbert, "rcm": rcm,
                      "breadth_first": breadth_first}[which].place(vr, nets, m, cons)
             result = sorted((v, list(c)) for v, c in p.items())
+            raws.append(p)
         elif fn == "allocate":
             st = staged("placed")
             args = [st["m"], st["vr"], st["nets"], st["cons"], st["placements"]]
             before = [snap(a) for a in args]
             al = allocate(st["vr"], st["nets"], st["m"], st["cons"], st["placements"])
             result = sorted((v, sorted((str(k), s.start, s.stop) for k, s in d.items())) for v, d in al.items())
+            raws.append(al)
         elif fn == "route":
             st = staged("allocated")
             args = [st["m"], st["vr"], st["nets"], st["cons"], st["placements"], st["allocations"]]
@@ -204,12 +236,15 @@ def do_call(spec):
             rt = route(st["vr"], st["nets"], st["m"], st["cons"], st["placements"], st["allocations"],
                        radius=seed % 4)
             result = [tree_canon(rt[n]) for n in st["nets"]]
+            raws.append(rt)
         elif fn == "tables":
             st = staged("routed")
             keys = {net: (i << 8, 0xffffff00) for i, net in enumerate(st["nets"])}
             args = [st["routes"], keys]
             before = [snap(a) for a in args]
-            result = table_canon(routing_tree_to_tables(st["routes"], keys))
+            tb = routing_tree_to_tables(st["routes"], keys)
+            result = table_canon(tb)
+            raws.append(tb)
         elif fn.startswith("minimise_"):
             st = staged("tables")
             args = [st["tables"]]
@@ -222,6 +257,32 @@ def do_call(spec):
             else:
                 out = {c: remove_default_routes.minimise(t, target_length=None) for c, t in st["tables"].items()}
             result = table_canon(out)
+            raws.append(out)
+        elif fn == "oc_default":
+            # ordered_covering called WITHOUT an alias dictionary (its default), often on tables where nothing
+            # can be merged; the caller then combines the alias dictionaries it was handed
+            from rig.routing_table import RoutingTableEntry, Routes
+            r = random.Random(seed)
+            res, combined = [], None
+            for _ in range(4):
+                bits = r.choice([3, 4])
+                routes = [Routes.north, Routes.south, Routes.east, Routes.west]
+                keys = r.sample(range(1 << bits), r.randrange(2, 7))
+                distinct = r.random() < 0.5            # all routes distinct: nothing merges
+                t = [RoutingTableEntry({routes[i % 4] if distinct and i < 4 else r.choice(routes[:2])}, k, (1 << bits) - 1)
+                     for i, k in enumerate(keys)]
+                args = [t]
+                before = [snap(a) for a in args]
+                t2, al2 = ordered_covering.ordered_covering(t, r.choice([0, len(t), 100]), no_raise=True)
+                if before != [snap(a) for a in args]:
+                    raise AssertionError("ordered_covering modified the table it was given")
+                res.append([table_canon({(0, 0): t2}), sorted((list(k), sorted(map(list, v))) for k, v in al2.items())])
+                if combined is None:
+                    combined = al2
+                combined.update(al2)
+                combined[(keys[0], (1 << bits) - 1)] = set([(keys[0], (1 << bits) - 1), (keys[-1], (1 << bits) - 1)])
+            args, before = [], []
+            result = res
         elif fn == "oc_aliases":
             # the documented "update an already minimised table" use: a second ordered-covering pass that
             # is handed the table AND the alias dictionary the first pass returned
@@ -379,11 +440,13 @@ def do_call(spec):
             MinimisationFailedError, MultisourceRouteError) as e:
         result = ["raised", type(e).__name__]
     after = [snap(a) for a in args]
+    for o in raws:
+        scribble(o)
     return result, before, after
 
 
 FNS = ["place_sequential", "place_seqcustom", "place_seqcustom", "place_hilbert", "place_rcm", "place_breadth_first", "place_rand", "place_sa",
-       "allocate", "route", "route", "tables", "minimise_tables", "minimise_oc", "minimise_rdr", "oc_aliases", "oc_aliases", "bitfield", "bitfield_tagsets", "controller", "boot", "hexagons", "hexagons"]
+       "allocate", "route", "route", "tables", "minimise_tables", "minimise_oc", "minimise_rdr", "oc_aliases", "oc_aliases", "oc_default", "oc_default", "bitfield", "bitfield_tagsets", "controller", "boot", "hexagons", "hexagons"]
 
 
 if __name__ == "__main__":
